@@ -3,24 +3,23 @@
 
     [generated_table] (Gen/Effects.v) is the receiver-write effect table that
     harness/tools/effects extracts from the CURRENT source of /repo on every run;
-    [effects_read_only] (Gen/EffectsOk.v) is the kernel-checked fact that every
-    listed effect belongs to the recorded finding C17-F1 (none, once repaired).  A
-    code change that makes an Execute / WithConfig / accessor of a mechanism write
-    receiver-reachable memory makes [effects_read_only], hence this file, fail to
-    compile.
+    [effects_read_only] (Gen/EffectsOk.v) is the kernel-checked fact that no method
+    of any mechanism type has a receiver-write effect.  A code change that makes an
+    Execute / WithConfig / accessor of a mechanism write receiver-reachable memory
+    makes [effects_read_only], hence this file, fail to compile.
 
     Model (C17/Model.v): a store of cells; a mechanism instance is a record of
     cell references; WithConfig allocates fresh cells for overridden fields and
     shares the rest; calls interleave access by access; a call writes only if the
-    table lists a write effect for the called method.  [unguarded p]: the
-    mechanism type of [p] is not affected by finding C17-F1. *)
+    table lists a write effect for the called method.  [has_row tbl p]: the
+    Go type of [p] is a mechanism type of the table. *)
 From HV Require Import Base.Prelude C17.Model C17.Proofs Gen.Effects Gen.EffectsOk.
 
 (** executing mechanisms, calling accessors and creating variants — any number,
     any interleaving — changes no cell that existed before: the prototype and
     every earlier variant keep their configuration *)
 Theorem C17_store_unchanged : forall s0 cat c1 c2,
-  catalogue_ok s0 cat -> (forall p, In p cat -> unguarded generated_table p) ->
+  catalogue_ok s0 cat -> (forall p, In p cat -> has_row generated_table p) ->
   steps generated_table (init s0 cat) c1 -> steps generated_table c1 c2 ->
   (exists ext, c_store c2 = c_store c1 ++ ext) /\
   (forall i, In i (c_insts c1) -> In i (c_insts c2) /\ view (c_store c2) i = view (c_store c1) i).
@@ -29,14 +28,14 @@ Print Assumptions C17_store_unchanged.
 
 (** no interleaving contains two concurrent conflicting accesses *)
 Theorem C17_race_free : forall s0 cat c,
-  catalogue_ok s0 cat -> (forall p, In p cat -> unguarded generated_table p) ->
+  catalogue_ok s0 cat -> (forall p, In p cat -> has_row generated_table p) ->
   steps generated_table (init s0 cat) c -> ~ race c.
 Proof. intros s0 cat c Hc Hu. exact (race_free generated_table effects_read_only s0 cat Hc Hu c). Qed.
 Print Assumptions C17_race_free.
 
 (** no running call ever has a write ahead of it *)
 Theorem C17_calls_read_only : forall s0 cat c t a,
-  catalogue_ok s0 cat -> (forall p, In p cat -> unguarded generated_table p) ->
+  catalogue_ok s0 cat -> (forall p, In p cat -> has_row generated_table p) ->
   steps generated_table (init s0 cat) c -> In t (c_thr c) -> In a (t_todo t) -> acc_is_write a = false.
 Proof. intros s0 cat c t a Hc Hu. exact (calls_read_only generated_table effects_read_only s0 cat Hc Hu c t a). Qed.
 Print Assumptions C17_calls_read_only.
@@ -44,7 +43,7 @@ Print Assumptions C17_calls_read_only.
 (** each rule observes exactly the catalogue configuration of its prototype
     overlaid with its own overrides *)
 Theorem C17_overrides_local : forall s0 cat c i,
-  catalogue_ok s0 cat -> (forall p, In p cat -> unguarded generated_table p) ->
+  catalogue_ok s0 cat -> (forall p, In p cat -> has_row generated_table p) ->
   steps generated_table (init s0 cat) c -> In i (c_insts c) ->
   spec_view s0 cat i = Some (view (c_store c) i).
 Proof. intros s0 cat c i Hc Hu. exact (overrides_local generated_table effects_read_only s0 cat Hc Hu c i). Qed.
@@ -52,7 +51,7 @@ Print Assumptions C17_overrides_local.
 
 (** … regardless of which other rules exist or were loaded before *)
 Theorem C17_order_independent : forall s0 cat c c' i i',
-  catalogue_ok s0 cat -> (forall p, In p cat -> unguarded generated_table p) ->
+  catalogue_ok s0 cat -> (forall p, In p cat -> has_row generated_table p) ->
   steps generated_table (init s0 cat) c -> steps generated_table (init s0 cat) c' ->
   In i (c_insts c) -> In i' (c_insts c') ->
   i_origin i = i_origin i' -> i_ovrs i = i_ovrs i' ->
@@ -60,10 +59,10 @@ Theorem C17_order_independent : forall s0 cat c c' i i',
 Proof. intros s0 cat c c' i i' Hc Hu. exact (order_independent generated_table effects_read_only s0 cat Hc Hu c c' i i'). Qed.
 Print Assumptions C17_order_independent.
 
-(** the same five statements hold for EVERY effect table that passes the boolean
+(** the same statements hold for EVERY effect table that passes the boolean
     check (the theorems do not depend on today's table) *)
 Theorem C17_for_every_table : forall tbl, forallb row_ok tbl = true ->
-  forall s0 cat, catalogue_ok s0 cat -> (forall p, In p cat -> unguarded tbl p) ->
+  forall s0 cat, catalogue_ok s0 cat -> (forall p, In p cat -> has_row tbl p) ->
   forall c, steps tbl (init s0 cat) c ->
     ~ race c /\
     (forall i, In i (c_insts c) -> spec_view s0 cat i = Some (view (c_store c) i)) /\
@@ -76,29 +75,45 @@ Proof.
 Qed.
 Print Assumptions C17_for_every_table.
 
-(** finding C17-F1: with a lazily initialising Execute (an effect attributed to
-    MetadataEndpoint.init) two concurrent executions of the prototype race and the
-    shared prototype changes *)
-Theorem C17_F1_refuted :
+(** the sequential semantics that the correspondence evaluator executes ([run_ops]) is a
+    schedule of the interleaving semantics, and so meets the specification: after ANY list
+    of operations every instance shows its prototype's catalogue configuration overlaid with
+    its own overrides, and the store that existed before is only extended *)
+Theorem C17_sequential_runs_meet_spec : forall s0 cat os s insts,
+  catalogue_ok s0 cat -> (forall p, In p cat -> has_row generated_table p) ->
+  run_ops generated_table (s0, cat) os = Some (s, insts) ->
+  (exists ext, s = s0 ++ ext) /\ (exists more, insts = cat ++ more) /\
+  forall i, In i insts -> spec_view s0 cat i = Some (view s i).
+Proof. intros s0 cat os s insts. exact (run_ops_spec generated_table effects_read_only s0 cat os s insts). Qed.
+Print Assumptions C17_sequential_runs_meet_spec.
+
+(** finding C17-F1 (repaired by fix: commit 13721c3), as it was at the pinned revision: with the
+    effects the translator then extracted for jwtAuthenticator.Execute (stores of
+    MetadataEndpoint.init) the table check fails, two concurrent executions of the prototype
+    race and the shared prototype changes *)
+Theorem C17_F1_pinned_refuted :
   exists tbl s0 cat,
-    catalogue_ok s0 cat /\ (forall r, In r tbl -> guard_F1 r = true) /\
+    catalogue_ok s0 cat /\ (forall p, In p cat -> has_row tbl p) /\ forallb row_ok tbl = false /\
     (exists c, steps tbl (init s0 cat) c /\ race c) /\
     (exists c p, steps tbl (init s0 cat) c /\ In p cat /\ view (c_store c) p <> view s0 p).
-Proof. exact F1_refuted. Qed.
-Print Assumptions C17_F1_refuted.
+Proof. exact F1_pinned_refuted. Qed.
+Print Assumptions C17_F1_pinned_refuted.
 
 (** the hypotheses are satisfiable: a read-only row, a catalogue, a run in which a
     variant is created while the prototype executes *)
 Theorem C17_nonvacuous :
   forallb row_ok [nv_row] = true /\ catalogue_ok [10%Z; 20%Z] [nv_proto] /\
-  unguarded [nv_row] nv_proto /\
+  has_row [nv_row] nv_proto /\
   exists c v, steps [nv_row] (init [10%Z; 20%Z] [nv_proto]) c /\ In v (c_insts c) /\
     i_ovrs v = [[None; Some 99%Z]] /\ view (c_store c) v = [10%Z; 99%Z] /\
     view (c_store c) nv_proto = [10%Z; 20%Z] /\ c_thr c <> [].
 Proof. exact nonvacuous. Qed.
 Print Assumptions C17_nonvacuous.
 
-(** and today's table contains mechanism types outside the guard *)
-Example C17_table_has_unguarded_rows :
-  List.length (filter (fun r => negb (guard_F1 r)) generated_table) >= 10.
-Proof. vm_compute. lia. Qed.
+(** and today's table covers the mechanism types of heimdall: at least 19 rows, each with
+    an Execute and a WithConfig method *)
+Example C17_table_covers_mechanisms :
+  List.length generated_table >= 19 /\
+  forallb (fun r => match may_write r "Execute", may_write r "WithConfig" with
+                    | Some _, Some _ => true | _, _ => false end) generated_table = true.
+Proof. split; [vm_compute; lia|vm_compute; reflexivity]. Qed.
